@@ -295,3 +295,49 @@ Theorem c01_pair_guarded_refuted :
     ha_len (p_wa (prun (fixed_cc 100000) s0 kf1_delayed_ack_ops)) = 1980.
 Proof. exact Pair_RefineWitness.c01_pair_guarded_refuted. Qed.
 Print Assumptions c01_pair_guarded_refuted.
+
+(* The extracted predicate of one direction on every live pair trace: the cumulative (length, hash) of
+   what the reader got is, after every op, that of a prefix of what the writer's application wrote,
+   whenever the data-path run matching the trace is guarded.  PARTIAL for the same two reasons as
+   c01_prefix_pair_trace_partial (live directions only; the guard is that of the data-path run). *)
+From Utp Require Import Pair.Pair_RefineObs Pair.C01_Pred2.
+
+Theorem c01_dir_ok_pair_trace_partial : forall (CC : Type) (cci : cc_iface CC) (mk_cc : Z -> Z -> CC) (c : pconfig)
+    (s0 : pair (CC := CC)) (sd : side) (ops : list pop),
+  pconfig_ok c = true -> pair_new cci mk_cc c = Some s0 -> live_run cci sd s0 ops = true ->
+  exists dops : list dop,
+    psim (dir_isn sd c) (pc_tx_init c) sd (prun cci s0 ops) (dp_run (dir_init sd c) dops) /\
+    (dp_guards (dp_run (dir_init sd c) dops) = true ->
+     c01_dir_ok (other sd) (zip_obs ops (ptrace cci s0 ops)) = true).
+Proof. exact @pair_trace_dir_ok. Qed.
+
+(* the widened class c01_kf1_class2 (Pair/C01_Pred2.v: a probe popped, seen in the sender's fingerprints,
+   and delivered) contains the delayed-ACK trace and the original KF1 trace and not the lossy 3000-byte
+   transfer; c01_pair_guarded2 holds on all three *)
+Theorem c01_kf1_class2_witnesses :
+  (exists s0 : pair (CC := unit),
+     pair_new (fixed_cc 100000) (fun _ _ => tt) kf1_cfg = Some s0 /\
+     let tr := ptrace (fixed_cc 100000) s0 kf1_delayed_ack_ops in
+     let evs := pevents (fixed_cc 100000) s0 kf1_delayed_ack_ops in
+     let fps := pair_fps (fixed_cc 100000) s0 tr in
+     c01_kf1_class evs = false /\ c01_kf1_popped_dir SA fps evs = true /\ c01_kf1_class2 fps evs = true /\
+     pops_of SA fps = [(102, 991)] /\
+     c01_pair_guarded2 fps evs (zip_obs kf1_delayed_ack_ops tr) = true) /\
+  (exists s0 : pair (CC := unit),
+     pair_new (fixed_cc 100000) (fun _ _ => tt) kf1_cfg = Some s0 /\
+     let tr := ptrace (fixed_cc 100000) s0 kf1_pair_ops in
+     let evs := pevents (fixed_cc 100000) s0 kf1_pair_ops in
+     let fps := pair_fps (fixed_cc 100000) s0 tr in
+     c01_kf1_class evs = true /\ c01_kf1_popped_dir SA fps evs = true /\ c01_kf1_class2 fps evs = true /\
+     c01_pair_guarded2 fps evs (zip_obs kf1_pair_ops tr) = true) /\
+  (exists s0 : pair (CC := unit),
+     pair_new (fixed_cc 100000) (fun _ _ => tt) d17_cfg = Some s0 /\
+     let tr := ptrace (fixed_cc 100000) s0 d17_pair_ops in
+     let evs := pevents (fixed_cc 100000) s0 d17_pair_ops in
+     let fps := pair_fps (fixed_cc 100000) s0 tr in
+     c01_kf1_class2 fps evs = false /\ c01_pair_ok (zip_obs d17_pair_ops tr) = true /\
+     c01_pair_guarded2 fps evs (zip_obs d17_pair_ops tr) = true).
+Proof. exact Pair_RefineWitness.c01_kf1_class2_witnesses. Qed.
+
+Print Assumptions c01_dir_ok_pair_trace_partial.
+Print Assumptions c01_kf1_class2_witnesses.
